@@ -230,6 +230,106 @@ func suiteRedisConc(c *Ctx) {
 	}
 	redisConcCuckoo(c, s, true)
 	redisConcTopK(c, s, true)
+	redisCommandSequences(c, s)
+	redisCuckooLengthAcrossHandles(c)
+}
+
+func seqMatches(got []string, want [][]string) bool {
+	// want[i] lists the admissible spellings of step i ("evalsha" may be followed by an "eval" retry)
+	i := 0
+	for _, w := range want {
+		if i >= len(got) {
+			return false
+		}
+		ok := false
+		for _, alt := range w {
+			if got[i] == alt {
+				ok = true
+			}
+		}
+		if !ok {
+			return false
+		}
+		i++
+		if w[0] == "evalsha" && i < len(got) && got[i] == "eval" {
+			i++
+		}
+	}
+	return i == len(got)
+}
+
+// the multi-command programs of the model (Props/C16.lean: `C16TopK.insertProg`, cuckoo
+// `insertProg`): a change of the command sequence is a change of the concurrency behaviour
+func redisCommandSequences(c *Ctx, s *cmdSched) {
+	c.rep.Cases++
+	sc := []string{"evalsha"}
+	t := gostatix.NewTopKRedis(2, 0.05, 0.2)
+	if t != nil {
+		t.Insert([]byte("warm-a"), 5) // scripts cached, set not full
+		t.Insert([]byte("warm-b"), 6)
+		// new element into a full set: update script, count script, ZCARD, ZRANGE, ZSCORE, ZADD, ZCARD, ZPOPMIN
+		got := s.record(func() { t.Insert([]byte("newcomer"), 9) })
+		want := [][]string{sc, sc, {"zcard"}, {"zrange"}, {"zscore"}, {"zadd"}, {"zcard"}, {"zpopmin"}}
+		if !seqMatches(got, want) {
+			c.fail([]string{"C16"}, "redistopk-command-sequence", fmt.Sprintf("TopKRedis.Insert of a new element into a full set issues %v, the modelled program is [script script zcard zrange zscore zadd zcard zpopmin]", got), map[string]interface{}{"commands": got})
+		}
+		// tracked element: ... ZSCORE, ZREM, ZADD, ZCARD (no pop)
+		got = s.record(func() { t.Insert([]byte("newcomer"), 1) })
+		want = [][]string{sc, sc, {"zcard"}, {"zrange"}, {"zscore"}, {"zrem"}, {"zadd"}, {"zcard"}}
+		if !seqMatches(got, want) {
+			c.fail([]string{"C16"}, "redistopk-command-sequence", fmt.Sprintf("TopKRedis.Insert of a tracked element issues %v, the modelled program is [script script zcard zrange zscore zrem zadd zcard]", got), map[string]interface{}{"commands": got})
+		}
+		c.branch("topk-command-sequence")
+	}
+	f, err := gostatix.NewCuckooFilterRedisWithRetries(4, 2, 3, 3)
+	if err == nil {
+		f.Insert([]byte("warm"), false)
+		got := s.record(func() { f.Insert([]byte("direct insert"), false) })
+		// isFree(first) [isFree(second)] add HINCRBY
+		w1 := [][]string{sc, sc, {"hincrby"}}
+		w2 := [][]string{sc, sc, sc, {"hincrby"}}
+		if !seqMatches(got, w1) && !seqMatches(got, w2) {
+			c.fail([]string{"C16"}, "rediscuckoo-command-sequence", fmt.Sprintf("CuckooFilterRedis.Insert into a bucket with room issues %v, the modelled program is [isFree-script (isFree-script) add-script hincrby]", got), map[string]interface{}{"commands": got})
+		}
+		got = s.record(func() { f.Length() })
+		if !seqMatches(got, [][]string{{"hget"}}) {
+			c.fail([]string{"C16", "C09"}, "rediscuckoo-command-sequence", fmt.Sprintf("CuckooFilterRedis.Length issues %v instead of reading the shared counter (HGET)", got), map[string]interface{}{"commands": got})
+		}
+		c.branch("cuckoo-command-sequence")
+	}
+}
+
+// Length is the shared counter: after updates through several re-attached handles (no
+// interleaving involved) every handle must report the number of successful inserts
+func redisCuckooLengthAcrossHandles(c *Ctx) {
+	f, err := gostatix.NewCuckooFilterRedisWithRetries(64, 4, 4, 3)
+	if err != nil {
+		return
+	}
+	c.rep.Cases++
+	hs := []*gostatix.CuckooFilterRedis{f}
+	for i := 0; i < 2; i++ {
+		if g, err := gostatix.NewCuckooFilterRedisFromKey(f.MetadataKey()); err == nil {
+			hs = append(hs, g)
+		}
+	}
+	succ := uint64(0)
+	for i := 0; i < 30; i++ {
+		h := hs[i%len(hs)]
+		ok := false
+		safely(func() { ok = h.Insert([]byte(fmt.Sprintf("len-%d", i)), false) })
+		if ok {
+			succ++
+		}
+		for hi, g := range hs {
+			if l := g.Length(); l != succ {
+				c.fail([]string{"C16", "C09", "C13"}, "rediscuckoo-length-handle-local", fmt.Sprintf("after %d successful inserts through %d handles, Length() through handle %d is %d", succ, len(hs), hi, l),
+					map[string]interface{}{"handles": len(hs), "inserts": i + 1})
+				return
+			}
+		}
+	}
+	c.branch("length-across-handles")
 }
 
 func alternations(order []int) int {
